@@ -1160,7 +1160,7 @@ def analyse(case, obs):
 
 class C04(Prop):
     id = "C04"
-    props_file = ["Props/C04.v", "Props/C04_Bridge.v", "Props/C04_Examples.v"]
+    props_file = ["Props/C04.v", "Props/C04_Bridge.v", "Props/C04_Examples.v", "Props/C04_Examples_Bridge.v"]
     coq_imports = kc.COQ_IMPORTS
     n_quick = 600
     n_thorough = 15000
